@@ -664,11 +664,19 @@ func (vt *Model) decstbm(pm [][]int) {
 		top = 0
 		bot = row(vt.height()) - 1
 	case 1:
-		top = row(pm[0][0] - 1)
+		top = row(clampParam(pm[0][0]) - 1)
 		bot = row(vt.height()) - 1
 	case 2:
-		top = row(pm[0][0] - 1)
-		bot = row(pm[1][0] - 1)
+		top = row(clampParam(pm[0][0]) - 1)
+		bot = row(clampParam(pm[1][0]) - 1)
+	}
+	// An omitted or zero parameter means the first, respectively the last
+	// line, and the region can't extend beyond the screen
+	if top < 0 {
+		top = 0
+	}
+	if bot < 0 || bot > row(vt.height())-1 {
+		bot = row(vt.height()) - 1
 	}
 	if top >= bot {
 		return
